@@ -1,5 +1,389 @@
-//! C03 harness (stub: not implemented yet).
+//! C03 — canonical head by delegate quorum. Runs the real `Canonical::quorum` on real commit graphs.
+//!
+//! Case input (the same tokens the Lean driver reads):
+//!   `<mode> <parents> <salt> <ord> <le> <rel> <tips> <threshold>`
+//! * `mode`: `v` = empty `Canonical::reference` + one `modify_vote` per delegate; `f` = the delegates' tips
+//!   are written as `refs/namespaces/<did>/refs/heads/master` and read back by `Canonical::reference`.
+//! * `parents`: per commit `r` (root) or `i+j` (earlier commits); `salt` varies the commit messages and
+//!   hence the oid order (which the `BTreeMap<Oid, _>` folds of the code follow).
+//! * `ord`, `le`, `rel`: the opaque git facts, computed by the real libgit2 on the real graph: rank of
+//!   each commit in oid order; `le[i][j]` = `merge_base(i, j) == i` (cross-checked against
+//!   `graph_descendant_of`); `rel[i][j]` = `merge_base(i, j)` succeeds. In corpus files they may be
+//!   written `?`: the harness fills them in and records the completed line. A line whose facts differ
+//!   from what git says yields `env-mismatch` (a disagreement).
+//! * `tips`: per delegate a commit index or `x`.
+//! Output: `ok:<commit index>` | `none` | `diverging` | `git` | `panic`.
+
+use std::cell::RefCell;
+use std::collections::{BTreeMap, BTreeSet, HashMap};
+
+use nonempty::NonEmpty;
+use radicle::crypto::test::signer::MockSigner;
+use radicle::crypto::Signer as _;
+use radicle::git;
+use radicle::git::canonical::{Canonical, QuorumError};
+use radicle::identity::{Did, RepoId};
+use radicle::storage::git::Repository;
+use radicle::test::fixtures;
+use verif_common::*;
+
+struct Graph {
+    _tmp: tempfile::TempDir,
+    repo: Repository,
+    oids: Vec<git::raw::Oid>,
+    ord: String,
+    le: String,
+    rel: String,
+    lem: Vec<Vec<bool>>,
+}
+
+thread_local! {
+    static GRAPHS: RefCell<HashMap<(String, u64), std::rc::Rc<Graph>>> = RefCell::new(HashMap::new());
+}
+
+fn parse_parents(s: &str) -> Option<Vec<Vec<usize>>> {
+    let mut out = vec![];
+    for (i, row) in s.split(',').enumerate() {
+        if row == "r" {
+            out.push(vec![]);
+        } else {
+            let ps: Vec<usize> = row.split('+').map(|p| p.parse().ok()).collect::<Option<_>>()?;
+            if ps.is_empty() || ps.iter().any(|p| *p >= i) {
+                return None;
+            }
+            out.push(ps);
+        }
+    }
+    if out.is_empty() {
+        None
+    } else {
+        Some(out)
+    }
+}
+
+fn did(i: usize) -> Did {
+    let mut seed = [0x33u8; 32];
+    seed[0] = i as u8;
+    seed[1] = (i >> 8) as u8;
+    Did::from(*MockSigner::from_seed(seed).public_key())
+}
+
+fn bits(m: &[Vec<bool>]) -> String {
+    m.iter()
+        .map(|r| r.iter().map(|b| if *b { '1' } else { '0' }).collect::<String>())
+        .collect::<Vec<_>>()
+        .join(",")
+}
+
+fn graph(parents_txt: &str, salt: u64) -> Option<std::rc::Rc<Graph>> {
+    let key = (parents_txt.to_string(), salt);
+    if let Some(g) = GRAPHS.with(|c| c.borrow().get(&key).cloned()) {
+        return Some(g);
+    }
+    let parents = parse_parents(parents_txt)?;
+    let tmp = tempfile::tempdir().ok()?;
+    let rid = RepoId::from(git::raw::Oid::from_bytes(&[7u8; 20]).ok()?);
+    let repo = Repository::create(tmp.path().join("repo"), rid, &fixtures::user()).ok()?;
+    let raw = &repo.backend;
+    let sig = git::raw::Signature::new("anonymous", "anonymous@radicle.xyz", &git::raw::Time::new(1514817556, 0)).ok()?;
+    let tree = {
+        let tb = raw.treebuilder(None).ok()?;
+        raw.find_tree(tb.write().ok()?).ok()?
+    };
+    let mut oids: Vec<git::raw::Oid> = vec![];
+    for (i, ps) in parents.iter().enumerate() {
+        let pcs: Vec<git::raw::Commit> = ps.iter().map(|p| raw.find_commit(oids[*p]).unwrap()).collect();
+        let prefs: Vec<&git::raw::Commit> = pcs.iter().collect();
+        let oid = raw.commit(None, &sig, &sig, &format!("c{i} salt {salt}"), &tree, &prefs).ok()?;
+        oids.push(oid);
+    }
+    let n = oids.len();
+    // rank in oid order
+    let mut sorted: Vec<git::raw::Oid> = oids.clone();
+    sorted.sort();
+    let ord: Vec<u64> = oids.iter().map(|o| sorted.iter().position(|s| s == o).unwrap() as u64).collect();
+    let mut lem = vec![vec![false; n]; n];
+    let mut relm = vec![vec![false; n]; n];
+    for i in 0..n {
+        for j in 0..n {
+            let mb = raw.merge_base(oids[i], oids[j]);
+            relm[i][j] = mb.is_ok();
+            lem[i][j] = matches!(mb, Ok(b) if b == oids[i]);
+            // cross-check the assumed reading of merge_base against git's own ancestry test
+            let anc = i == j || raw.graph_descendant_of(oids[j], oids[i]).unwrap_or(false);
+            if anc != lem[i][j] {
+                panic!("harness: merge_base and graph_descendant_of disagree on {parents_txt} ({i},{j})");
+            }
+        }
+    }
+    drop(tree);
+    let g = std::rc::Rc::new(Graph { _tmp: tmp, ord: nats(&ord), le: bits(&lem), rel: bits(&relm), lem, repo, oids });
+    GRAPHS.with(|c| {
+        let mut c = c.borrow_mut();
+        if c.len() > 64 {
+            c.clear();
+        }
+        c.insert(key, g.clone())
+    });
+    Some(g)
+}
+
+/// Fill in `?` facts; returns the completed case line.
+fn normalize(input: &str) -> String {
+    let f: Vec<&str> = input.split(' ').collect();
+    if f.len() != 8 {
+        return input.to_string();
+    }
+    let Ok(salt) = f[2].parse::<u64>() else { return input.to_string() };
+    let Some(g) = graph(f[1], salt) else { return input.to_string() };
+    let pick = |t: &str, real: &str| if t == "?" { real.to_string() } else { t.to_string() };
+    format!("{} {} {} {} {} {} {} {}", f[0], f[1], f[2], pick(f[3], &g.ord), pick(f[4], &g.le), pick(f[5], &g.rel), f[6], f[7])
+}
+
+fn run_case(input: &str) -> Outcome {
+    let bad = || Outcome::new("bad-case").trivial().tag("bad-case");
+    let f: Vec<&str> = input.split(' ').collect();
+    if f.len() != 8 || (f[0] != "v" && f[0] != "f") {
+        return bad();
+    }
+    let (Ok(salt), Ok(threshold)) = (f[2].parse::<u64>(), f[7].parse::<usize>()) else { return bad() };
+    let Some(g) = graph(f[1], salt) else { return bad() };
+    let n = g.oids.len();
+    if f[3] != g.ord || f[4] != g.le || f[5] != g.rel {
+        return Outcome::new("env-mismatch").trivial().tag("env-mismatch");
+    }
+    let mut tips: Vec<Option<usize>> = vec![];
+    for t in f[6].split(',') {
+        if t == "x" {
+            tips.push(None);
+        } else {
+            match t.parse::<usize>() {
+                Ok(c) if c < n => tips.push(Some(c)),
+                _ => return bad(),
+            }
+        }
+    }
+    if tips.is_empty() {
+        return bad();
+    }
+    let dids: Vec<Did> = (0..tips.len()).map(|i| did(i + 1)).collect();
+    let delegates = NonEmpty::from_vec(dids.clone()).unwrap();
+    let master = git::RefString::try_from("master").unwrap();
+    let refname = git::refs::branch(&master);
+    let raw = &g.repo.backend;
+
+    // --- run the real code -------------------------------------------------------------------
+    let res = catch(|| {
+        let canonical = if f[0] == "f" {
+            for (d, t) in dids.iter().zip(&tips) {
+                let name = refname.with_namespace(git::Component::from(d.as_key()));
+                match t {
+                    Some(c) => {
+                        raw.reference(name.as_str(), g.oids[*c], true, "verif").unwrap();
+                    }
+                    None => {
+                        if let Ok(mut r) = raw.find_reference(name.as_str()) {
+                            r.delete().unwrap();
+                        }
+                    }
+                }
+            }
+            let c = Canonical::reference(&g.repo, &refname, &delegates, threshold).unwrap();
+            // leave no refs behind for the next case on this graph
+            for d in dids.iter() {
+                let name = refname.with_namespace(git::Component::from(d.as_key()));
+                if let Ok(mut r) = raw.find_reference(name.as_str()) {
+                    r.delete().unwrap();
+                }
+            }
+            c
+        } else {
+            let mut c = Canonical::reference(&g.repo, &refname, &delegates, threshold).unwrap();
+            assert!(c.is_empty());
+            for (d, t) in dids.iter().zip(&tips) {
+                if let Some(t) = t {
+                    c.modify_vote(*d, g.oids[*t].into());
+                }
+            }
+            c
+        };
+        let seen: BTreeMap<Did, git::Oid> = canonical.tips().map(|(d, o)| (*d, *o)).collect();
+        (seen, canonical.quorum(raw))
+    });
+    let (seen, result) = match res {
+        Ok(r) => r,
+        Err(msg) => return Outcome::new("panic").tag("panic").violation("quorum-panic", msg),
+    };
+    let idx_of = |o: git::Oid| g.oids.iter().position(|x| *x == *o);
+    let output = match &result {
+        Ok(o) => match idx_of(*o) {
+            Some(i) => format!("ok:{i}"),
+            None => "ok:unknown".to_string(),
+        },
+        Err(QuorumError::NoCandidates(_)) => "none".to_string(),
+        Err(QuorumError::Diverging(_)) => "diverging".to_string(),
+        Err(QuorumError::Git(_)) => "git".to_string(),
+    };
+    let mut o = Outcome::new(output.clone());
+
+    // --- oracle: the property statement on what the real code did -------------------------------
+    // One tip per delegate must have been collected.
+    let expect_seen: BTreeMap<Did, git::Oid> =
+        dids.iter().zip(&tips).filter_map(|(d, t)| t.map(|c| (*d, git::Oid::from(g.oids[c])))).collect();
+    if seen != expect_seen {
+        o = o.violation("tips-not-one-per-delegate", format!("Canonical holds {} tips, expected {}", seen.len(), expect_seen.len()));
+    }
+    let desc = |tip: usize, c: usize| tip == c || raw.graph_descendant_of(g.oids[tip], g.oids[c]).unwrap_or(false);
+    let tipset: BTreeSet<usize> = tips.iter().flatten().copied().collect();
+    let support = |c: usize| tips.iter().flatten().filter(|t| desc(**t, c)).count();
+    let supported: Vec<usize> = tipset.iter().copied().filter(|c| support(*c) >= threshold).collect();
+    let has_max = supported.iter().any(|m| supported.iter().all(|c| desc(*m, *c)));
+    if let Ok(h) = &result {
+        match idx_of(*h) {
+            None => o = o.violation("head-not-a-tip", "returned head is not a commit of the graph"),
+            Some(h) => {
+                if !tipset.contains(&h) {
+                    o = o.violation("head-not-a-tip", format!("head c{h} is no delegate's tip"));
+                }
+                if support(h) < threshold {
+                    o = o.violation(
+                        "head-below-threshold",
+                        format!("head c{h} is in the history of only {} distinct delegates, threshold {threshold}", support(h)),
+                    );
+                }
+                if let Some(c) = supported.iter().find(|c| **c != h && desc(**c, h)) {
+                    o = o.violation("head-not-latest", format!("supported tip c{c} descends from the returned head c{h}"));
+                }
+                if !supported.is_empty() && !has_max {
+                    o = o.violation("head-despite-divergence", format!("supported tips {supported:?} have no common descendant among them, yet head c{h} returned"));
+                }
+            }
+        }
+    }
+    // --- distribution ---------------------------------------------------------------------------
+    o = o.tag(format!("out-{}", output.split(':').next().unwrap()));
+    o = o.tag(format!("mode-{}", f[0]));
+    let maxsup = tipset.iter().map(|c| support(*c)).max().unwrap_or(0);
+    if maxsup == threshold {
+        o = o.tag("boundary-support-eq-threshold");
+    }
+    if maxsup + 1 == threshold {
+        o = o.tag("boundary-support-eq-threshold-minus-1");
+    }
+    let counts: BTreeMap<usize, usize> = tips.iter().flatten().fold(BTreeMap::new(), |mut m, t| {
+        *m.entry(*t).or_default() += 1;
+        m
+    });
+    if counts.iter().any(|(c, k)| *k >= 2 && tipset.iter().any(|d| d != c && g.lem[*c][*d])) {
+        o = o.tag("shared-tip-with-descendant-tip");
+    }
+    if supported.len() >= 2 && has_max && supported.iter().any(|a| supported.iter().any(|b| !desc(*a, *b) && !desc(*b, *a))) {
+        o = o.tag("supported-nonchain-with-max");
+    }
+    if supported.len() >= 2 && !has_max {
+        o = o.tag("supported-divergent");
+    }
+    if tips.iter().any(|t| t.is_none()) {
+        o = o.tag("delegate-without-tip");
+    }
+    if f[1].contains('+') {
+        o = o.tag("graph-has-merge");
+    }
+    o.nontrivial = tipset.len() >= 2;
+    o
+}
+
+fn all_assignments(n: usize, k: usize) -> Vec<Vec<usize>> {
+    let mut out = vec![vec![]];
+    for _ in 0..k {
+        out = out.into_iter().flat_map(|a| (0..n).map(move |c| { let mut b = a.clone(); b.push(c); b })).collect();
+    }
+    out
+}
+
 fn main() {
-    eprintln!("C03: harness not implemented");
-    std::process::exit(3);
+    let mut ctx = Ctx::from_args("C03");
+    let (fixed, is_replay) = ctx.fixed_inputs();
+    for i in fixed {
+        let line = normalize(&i);
+        let o = run_case(&line);
+        ctx.count("corpus-or-replay");
+        ctx.record(&line, o);
+    }
+    if !is_replay {
+        // shapes: linear / fork (the witness shape) / diamond+child / two branches + merge / two roots /
+        // criss-cross / three-way fork / the repository's own test graph
+        let quick_shapes: &[&str] = &["r,0,1,0", "r,0,0,1+2,3", "r,0,1,0,3,2+4", "r,r,0,1"];
+        let thorough_shapes: &[&str] = &[
+            "r,0,1,2",
+            "r,0,1,0",
+            "r,0,0,1+2,3",
+            "r,0,1,0,3,2+4",
+            "r,r,0,1",
+            "r,r,0+1,2",
+            "r,0,0,1+2,1+2",
+            "r,0,0,0,1,2",
+            "r,0,1,0,0,4,4,5+6,1+6",
+        ];
+        let shapes = if ctx.quick() { quick_shapes } else { thorough_shapes };
+        let salts: u64 = ctx.size(2, 3);
+        let max_k: usize = ctx.size(4, 5) as usize;
+        let mut count = 0u64;
+        for shape in shapes {
+            let n = shape.split(',').count();
+            for salt in 0..salts {
+                let k_max = if n >= 9 { 4.min(max_k) } else if n >= 6 && !ctx.quick() { max_k.min(5) } else { max_k };
+                for k in 1..=k_max {
+                    for a in all_assignments(n, k) {
+                        // delegates are interchangeable for `quorum` (only the multiset of tips matters):
+                        // enumerate every sequence only for k <= 3, sorted sequences beyond
+                        if k > 3 && a.windows(2).any(|w| w[0] > w[1]) {
+                            continue;
+                        }
+                        for t in 1..=k {
+                            count += 1;
+                            let mode = if count % 40 == 0 { "f" } else { "v" };
+                            let tips = a.iter().map(|c| c.to_string()).collect::<Vec<_>>().join(",");
+                            let line = normalize(&format!("{mode} {shape} {salt} ? ? ? {tips} {t}"));
+                            let o = run_case(&line);
+                            ctx.record(&line, o);
+                        }
+                    }
+                }
+            }
+        }
+        // random graphs, delegates without a tip, thresholds 0..k+1
+        let mut rng = ctx.rng();
+        for _ in 0..ctx.size(1_500, 8_000) {
+            let n = rng.range(1, 8) as usize;
+            let mut rows = vec!["r".to_string()];
+            for i in 1..n {
+                let np = match rng.below(10) { 0 => 0, 1..=6 => 1, _ => 2 };
+                let mut ps: Vec<usize> = (0..np).map(|_| rng.below(i as u64) as usize).collect();
+                ps.sort();
+                ps.dedup();
+                rows.push(if ps.is_empty() { "r".into() } else { ps.iter().map(|p| p.to_string()).collect::<Vec<_>>().join("+") });
+            }
+            let shape = rows.join(",");
+            let salt = rng.below(4);
+            for _ in 0..8 {
+                let k = rng.range(1, 6) as usize;
+                let tips: Vec<String> = (0..k)
+                    .map(|_| if rng.chance(1, 8) { "x".to_string() } else { rng.below(n as u64).to_string() })
+                    .collect();
+                let t = rng.range(0, k as u64 + 1);
+                let mode = if rng.chance(1, 10) { "f" } else { "v" };
+                let line = normalize(&format!("{mode} {shape} {salt} ? ? ? {} {t}", tips.join(",")));
+                let o = run_case(&line);
+                ctx.record(&line, o);
+            }
+        }
+    }
+    ctx.finish(
+        "exhaustive: every assignment of 1..3 delegates (every sorted assignment of 4..5) to the commits of fixed small DAG shapes \
+         (linear, fork, diamond, two branches + merge, two roots, criss-cross, 3-way fork, the repo's own test graph) x every threshold 1..k \
+         x several oid orders (salts); plus random DAGs (<= 8 commits, merges, several roots) with delegates lacking a tip and thresholds 0..k+1; \
+         ancestry facts computed by the real libgit2 per graph; non-trivial = at least two distinct tips; distinct by input text",
+        false,
+    );
 }
